@@ -252,7 +252,23 @@ def r3_translation(run, w):
     ok = ok and any(text(v) == "atok.get_text_range(last_statement)[0]" for v in start)
   run.ob(R3, fn.qualname, "insert 'return ' at the start of tree.body[-1] when it is an ast.Expr",
          "the value of the last expression statement is what the formula returns", ok, fi=fn.fi)
-  # (c) the missing-return check raises a Grist syntax error stub rather than returning None
+  # (c) the missing-return error is raised only when no `return` occurs anywhere in the formula
+  ok = False
+  for n in ast.walk(fn.node):
+    if isinstance(n, ast.If) and any(isinstance(x, ast.Call) and
+                                     dotted(x.func) == "GristSyntaxError"
+                                     for b in n.body for x in ast.walk(b)):
+      t = n.test
+      if isinstance(t, ast.UnaryOp) and isinstance(t.op, ast.Not) and \
+          isinstance(t.operand, ast.Call) and dotted(t.operand.func) == "any" and \
+          isinstance(t.operand.args[0], ast.GeneratorExp):
+        g = t.operand.args[0]
+        elt_ok = "ast.Return" in text(g.elt)
+        src = text(g.generators[0].iter)
+        ok = elt_ok and "ast.walk(tree)" in src and not g.generators[0].ifs
+  run.ob(R3, fn.qualname, "if not any(<is ast.Return> for node in ...ast.walk(tree)): error",
+         "a formula is rejected for a missing return only when it contains no return statement "
+         "at all (returns in earlier statements count)", ok, fi=fn.fi)
   ok = any(isinstance(n, ast.Call) and dotted(n.func) == "GristSyntaxError" for n in
            ast.walk(fn.node))
   run.ob(R3, fn.qualname, "GristSyntaxError when nothing is returned", "a formula that cannot "
@@ -393,5 +409,7 @@ VARIANTS = [
   ("dollar-in-any-node", C, "      have_multiline_strings = True\n\n    if isinstance(node, ast.Name) and node.id.startswith('DOLLAR'):",
    "      have_multiline_strings = True\n\n    if getattr(node, 'id', '').startswith('DOLLAR') or isinstance(node, ast.Constant):", "C19-R3"),
   ("return-before-any-last-stmt", C, "  if isinstance(last_statement, ast.Expr):", "  if isinstance(last_statement, (ast.Expr, ast.Assign)):", "C19-R3"),
+  ("return-check-last-statement-only", C, "      for node in itertools.chain([last_statement], ast.walk(tree))",
+   "      for node in ast.walk(last_statement)", "C19-R3"),
   ("stub-raw-message", C, """  return "%s\\nraise %s(%r, ('usercode', %r, %r, %r))" % (""", """  return "%s\\nraise %s('%s', ('usercode', %r, %r, %r))" % (""", "C19-R5"),
 ]
